@@ -35,9 +35,10 @@ def check(run):
              'extreme expired, with >= / <= (most recent wins), then folds in the current element')
     for cfg in configs(run):
         F = run.facts(cfg)
+        if cfg == 'base': __import__('common').pins(run, F, 'number_prims')
         # helpers this property stands on (rule sets owned by other properties, see common.deps)
         from common import deps as _deps
-        _deps(run, F, 'drivers', 'isnone', 'accessors', 'casts')
+        _deps(run, F, 'drivers', 'isnone', 'accessors', 'casts', 'wrappers', 'fast_paths')
         ks = {k.name: k for k in find_kernels(F) if k.fn.file.endswith(('cmp.rs', 'norm.rs'))}
         run.floor('C03', 'kernels in cmp.rs + norm.rs', len(ks), 7)
         models = {}
